@@ -28,6 +28,7 @@ Clause by clause:
                                                               `set_owner_applies_exactly`
     contract call, DEPLOY, REDEPLOY, FEEDELEGATION with a
     scripted VM (transfers, storage writes, VM fee) ......... `vm_transaction_applies_exactly`
+    a contract account's tx to itself (`receiver = sender`) .. `contract_self_call_applies_exactly`
     MULTICALL (never applied by the scripted VM) ............ `multicall_never_applied`
 * a block that fails at any position commits nothing ........ `refused_block_noop`, `refused_iff_some_tx_rejected`
 * the block a producer builds is accepted, same state ....... `producer_validator_agree`
@@ -41,10 +42,11 @@ effects were not all applied) are repaired in /repo; regression tests in `Props/
 
 Not carried by a theorem (see notes/C03.md): the node-level half of the last clause (chain DB indexes,
 best block, bad-block cache: the chain-service harness of C05/C07) — here the block level is the block
-executor on a BlockState and the state DB root. The success theorems do not cover the shapes signature
-verification excludes (sender = target of a VM transaction, a system account as the sender of a governance
-tx to itself: `Props.C01.contract_calling_itself_mints` shows the effects are *not* all applied there) and
-`v1unstake` carries the invariant "staking total ≥ the amount" as a hypothesis.
+executor on a BlockState and the state DB root. The success theorems do not cover a system account as the
+sender of a governance tx to itself and a REDEPLOY or DEPLOY whose target is the sender's own account (no
+signed tx has these shapes); `v1unstake` carries the invariant "staking total ≥ the amount" as a hypothesis.
+Effects outside the model's world (which code blob, vote tallies, recovery points) are observed by the
+harness only (`checkHidden`, `checkTally` in harness/ledger).
 -/
 import Aergo.Lemmas.LedgerAtomic
 import Aergo.Lemmas.LedgerEffects
@@ -212,7 +214,7 @@ theorem payment_applies_exactly (c : Ctx) (w : World) (bp : Nat) (tx : Tx) (r : 
   plain_send_effects rfl ht hr hne hcode hs
 
 /-- **A payment to oneself** (sender = recipient, a key account): base fee and nonce, nothing else — the two
-`AccountState` records of the one account leave no other trace. -/
+`receiver = sender` (one live record). -/
 theorem self_payment_applies_exactly (c : Ctx) (w : World) (bp : Nat) (tx : Tx)
     (ht : tx.type = .transfer ∨ tx.type = .normal ∨ tx.type = .call) (hr : tx.recipient = some tx.sender)
     (hcode : (w.acct tx.sender).code = false) (hs : (executeTx c w bp tx).outcome = .success) :
@@ -354,6 +356,27 @@ example : (executeTx ctxPub w0 0 txCall).outcome = .success ∧
     (executeTx ctxPub w0 0 { txCall with type := .deploy, recipient := none, newAddr := 200, script := { fee := 300, xfers := [(11, 5)] } }).outcome = .success ∧
     (executeTx ctxPub w0 0 { txCall with type := .feeDelegation, amount := 0 }).outcome = .success := by
   refine ⟨by decide, by decide, by decide, by decide, by decide⟩
+
+/-- **A contract account's transaction to itself** (sent under a name whose destination is the contract, signed
+by the name's owner; `receiver = sender` since fix 343afa85): if it is applied, the script ran to its end and
+the world is `ownVmWorld`: the amount does not move, every third party of the script's transfers is credited,
+the storage writes are staged, and the ONE record of the account shows − what the script sent out − the fee,
+with the tx nonce. (Before the fix the debit went to a second record that was never written: the defect
+`C03-name-owner-sends-as-contract-to-itself` — a SUCCESS receipt whose effects were not all applied.) -/
+theorem contract_self_call_applies_exactly (c : Ctx) (w : World) (bp : Nat) (tx : Tx)
+    (hg : tx.type ≠ .governance) (hm : tx.type ≠ .multicall) (hrd : tx.type ≠ .redeploy)
+    (hr : tx.recipient = some tx.sender) (hcode : (w.acct tx.sender).code = true)
+    (hs : (executeTx c w bp tx).outcome = .success) :
+    tx.script.err = .ok ∧
+    sentOut tx.sender tx.script.xfers + (txBaseFee c tx.payloadLen + tx.script.fee) ≤ w.bal tx.sender ∧
+    (executeTx c w bp tx).w = ownVmWorld w tx (txBaseFee c tx.payloadLen + tx.script.fee) ∧
+    (executeTx c w bp tx).bp = bp + (txBaseFee c tx.payloadLen + tx.script.fee) :=
+  own_vm_effects rfl hg hm hrd hr hcode hs
+
+/-- test: the contract 100 calling itself (script: 5 to account 11) is applied -/
+example : (executeTx ctxPub w0 0 { txCall with sender := 100, amount := 0, script := { fee := 10, xfers := [(11, 5)] } }).outcome = .success ∧
+    (executeTx ctxPub w0 0 { txCall with sender := 100, amount := 0, script := { fee := 10, xfers := [(11, 5)] } }).w.bal 100 = 700000 - 5 - 100010 := by
+  refine ⟨by decide, by decide⟩
 
 /-- **A MULTICALL is never applied** by the scripted VM (it holds no multicall code): it fails at run time
 (fee + nonce, `failed_only_fee_and_nonce_partial`) or is rejected. -/
